@@ -974,7 +974,8 @@ pub fn temporal_acyclic(g: &mut G) -> Scenario {
     let b = 1usize;
     // how A's ask to B ends: 0 reply, 1 timeout, 2 cancelled, 3 callee panics, 4 callee killed, 5 reply after delay,
     // 6 the asker itself unwinds (a sibling branch of a join! panics) while the ask is in flight and the request is queued
-    let ending = g.below(7);
+    // 7 the ask is an ask_join: it is answered at once (with the JoinHandle), the asker then waits for the job - not for the callee
+    let ending = g.below(8);
     // B is kept busy so that A's request and B's own trigger queue up behind each other
     let busy = g.range(5, 30);
     // variant: the busy handler itself asks A back at its end - by then A's ask may have timed out or
@@ -997,6 +998,7 @@ pub fn temporal_acyclic(g: &mut G) -> Scenario {
     let a_ask = match ending {
         1 => Op::AskT { h: 50 + b as u32, m: ping, ms: g.range(1, 4) },
         2 => Op::Cancel { op: Box::new(Op::Ask { h: 50 + b as u32, m: ping }), polls: 1, ms: None },
+        7 => Op::AskJoin { h: 50 + b as u32, m: Msg { id: ping.id, kind: MsgKind::Join { delay_ms: g.pick(&[5u64, 20, 50]), out: g.pick(&[JobOut::Value, JobOut::Value, JobOut::Panic]) }, steps: vec![] } },
         6 => {
             let ask = ask_variant(g, 50 + b as u32, ping);
             if g.chance(500) {
